@@ -35,6 +35,8 @@ type c03Case struct {
 	Resend bool `json:"resend,omitempty"`
 	// Multiline: the server sends every reply as a multi-line reply
 	Multiline bool `json:"multiline_replies,omitempty"`
+	// Prior: the same *Msg values have been sent - and delivered - by an earlier, fault-free call
+	Prior bool `json:"delivered_before,omitempty"`
 }
 
 type c03Dry struct {
@@ -71,6 +73,18 @@ func runC03Case(r *ev.Run, c c03Case) c03Dry {
 	if err != nil {
 		r.HarnessError("C03 build: " + err.Error())
 		return c03Dry{}
+	}
+	if c.Prior {
+		atomic.StoreInt32(&gate, 0)
+		pr := runSendT(func(int) *refsmtp.Config { return &refsmtp.Config{AllowUTF8: true} }, nil, []mail.Option{mail.WithTLSPolicy(mail.NoTLS)}, msgs, c.Via, false, defaultNetTimeout)
+		if pr.Hung || pr.Panic != nil || pr.SendErr != nil || pr.DialErr != nil {
+			if c.Specs[0].SMIME != "ed25519-unsupported" {
+				r.HarnessError(fmt.Sprintf("C03: the fault-free earlier call failed: %v %v %v", pr.Panic, pr.DialErr, pr.SendErr))
+			}
+			return c03Dry{}
+		}
+		atomic.StoreInt32(&gate, 1)
+		r.Count("calls_on_messages_delivered_before", 1)
 	}
 	tmo := defaultNetTimeout
 	if c.WriteFail >= 0 {
@@ -255,6 +269,12 @@ func runC03Case(r *ev.Run, c c03Case) c03Dry {
 		if !m.IsDelivered() && committed[i] >= 1 && m.SendError() != nil && strings.Contains(m.SendError().Error(), "i/o timeout") {
 			// the client's own deadline fired while the reply was on its way: SMTP cannot decide this
 			r.Inconclusive(fmt.Sprintf("message %d committed but the client timed out waiting for the reply (%s)", i, c.FailClass))
+		} else if c.Prior {
+			// IsDelivered stays true from the earlier call; what this call has to do is report its own failure
+			if committed[i] == 0 && sr.SendErr != nil && !m.HasSendError() && len(c.Script) > 0 && queuedUnacked[i] == 0 {
+				// (which message a reply deviation hits is not tracked here: judged through the producer faults below)
+				r.Count("prior_delivered_messages_not_committed_again", 1)
+			}
 		} else if m.IsDelivered() != (committed[i] >= 1) {
 			viol(fmt.Sprintf("isdelivered-lies:%t-vs-committed-%t:%s", m.IsDelivered(), committed[i] >= 1, c.FailClass), fmt.Sprintf("message %d: IsDelivered()=%t but the server acknowledged its end-of-data %d times; send error: %v", i, m.IsDelivered(), committed[i], m.SendError()), map[string]any{"transcript": sr.Sessions[0].Transcript()})
 		}
@@ -284,9 +304,9 @@ func runC03Case(r *ev.Run, c c03Case) c03Dry {
 			if reached {
 				r.Count("failed_renderings_inside_data", 1)
 				if !m.HasSendError() {
-					viol("render-failure-not-reported", fmt.Sprintf("message %d: its rendering failed inside DATA but HasSendError() is false", i), nil)
+					viol("render-failure-not-reported", fmt.Sprintf("message %d: its rendering failed inside DATA but HasSendError() is false (call returned %v; delivered before: %t)", i, sr.SendErr, c.Prior), map[string]any{"transcript": sr.Sessions[0].Transcript()})
 				}
-				if m.IsDelivered() {
+				if m.IsDelivered() && !c.Prior {
 					viol("render-failure-delivered", fmt.Sprintf("message %d: its rendering failed but IsDelivered() is true", i), nil)
 				}
 			}
@@ -464,7 +484,7 @@ func c03Spec(r *ev.Run, stream string, idx, mi int) gen.MsgSpec {
 
 func runC03(r *ev.Run, rep *ev.ReplayDoc) ev.Summary {
 	sum := ev.Summary{
-		Rule: "batches of 1-3 seeded messages (C01 shapes, canonical CRLF; for every fourth batch the server sends all its replies as multi-line replies) sent through Send / DialAndSend / SendWithSMTPClient under single faults enumerated per batch: every content producer failing before/inside/after its data; the transport failing writes at offsets of every class inside each message's DATA phase (first byte, header block, every boundary line, part bodies, closing boundary, terminating dot) taken from a dry run; every reply class {4yz,5yz,drop} at every command position, plus 'queued, but the connection dies before the 250 leaves' at end-of-data; plus fault pairs (producer x reply, transport x reply) for small batches; every transport fault, every producer fault inside or after its data and the 4yz/drop replies at DATA / end-of-data / RSET are also run with a retry (the undelivered *Msg values are sent again by a new call over a healthy connection: each must be committed once, complete). Also pairs of overlapping calls on one established connection (the second Send starts while the first call is inside its DATA phase). Oracle compares the reference server's commit log with the complete renderings. non-trivial = a fault was injected; distinct by (batch, fault)",
+		Rule: "batches of 1-3 seeded messages (C01 shapes, canonical CRLF; for every fourth batch the server sends all its replies as multi-line replies) sent through Send / DialAndSend / SendWithSMTPClient under single faults enumerated per batch: every content producer failing before/inside/after its data; the transport failing writes at offsets of every class inside each message's DATA phase (first byte, header block, every boundary line, part bodies, closing boundary, terminating dot) taken from a dry run; every reply class {4yz,5yz,drop} at every command position, plus 'queued, but the connection dies before the 250 leaves' at end-of-data; plus fault pairs (producer x reply, transport x reply) for small batches; every transport fault, every producer fault inside or after its data and the 4yz/drop replies at DATA / end-of-data / RSET are also run with a retry (the undelivered *Msg values are sent again by a new call over a healthy connection: each must be committed once, complete). Producer faults are also run on messages an earlier fault-free call has already delivered (the failure of the later call still has to be reported on the Msg). Also pairs of overlapping calls on one established connection (the second Send starts while the first call is inside its DATA phase). Oracle compares the reference server's commit log with the complete renderings. non-trivial = a fault was injected; distinct by (batch, fault)",
 		Assumptions: []string{
 			"expected renderings are produced by the harness after the call with all producer faults disarmed (rendering is repeatable, C11)",
 			"what counts as committed is what the reference server received between 354 and CRLF.CRLF and acknowledged with 2yz",
@@ -552,6 +572,13 @@ func runC03(r *ev.Run, rep *ev.ReplayDoc) ev.Summary {
 						cr.Resend = true
 						cases = append(cases, cr)
 					}
+					if after == 5 {
+						// ... or the messages had been delivered by an earlier call (newsletter re-use) before this one fails
+						cp := c
+						cp.Prior = true
+						cp.FailClass += "+delivered-before"
+						cases = append(cases, cp)
+					}
 					// pair: producer fault x reply deviation at DATA-END / RSET / next MAIL
 					if size <= 2 || r.Thorough() {
 						for pos := 0; pos < dry.steps; pos++ {
@@ -633,7 +660,7 @@ func runC03(r *ev.Run, rep *ev.ReplayDoc) ev.Summary {
 				pf += fmt.Sprintf("%d:%s@%d", mi, k, f.After)
 			}
 		}
-		r.Eval(fmt.Sprintf("%s|%s|%s|%d|%s|%t|%t", c.Specs[0].ID, c.Via, scriptString(c.Script), c.WriteFail, pf, c.Resend, c.Multiline), true)
+		r.Eval(fmt.Sprintf("%s|%s|%s|%d|%s|%t|%t|%t", c.Specs[0].ID, c.Via, scriptString(c.Script), c.WriteFail, pf, c.Resend, c.Multiline, c.Prior), true)
 		r.Seen("fault_classes", c.FailClass)
 		if i%401 == 0 {
 			r.Sample(map[string]any{"batch": len(c.Specs), "via": c.Via, "fault_class": c.FailClass, "script": scriptString(c.Script), "write_fail_at": c.WriteFail})
